@@ -166,11 +166,14 @@ def run(ctx):
         res.ok("R19.1", "raw-write|none", "clap_mangen", "output only through Roff::to_writer")
 
     # ---- R19.2 guard dominance in Man::render
+    # the three one-line predicates app_has_* are inlined into render first, so that the helper form and the written-out form are one
+    import facts as _F
+    _F.inline_functions(fx, {"clap_mangen::app_has_arguments", "clap_mangen::app_has_subcommands", "clap_mangen::app_has_version"})
     rd = fx.body("clap_mangen::Man::render")
     guards_tbl = {
-        "_render_options_section": r"^app_has_arguments\(",
-        "_render_subcommands_section": r"^app_has_subcommands\(",
-        "_render_version_section": r"^app_has_version\(",
+        "_render_options_section": r"^any\(get_arguments\(self\.cmd\),closure\(\)\)$",
+        "_render_subcommands_section": r"^any\(get_subcommands\(self\.cmd\),closure\(\)\)$",
+        "_render_version_section": r"^is_some\(or_else\(get_version\(self\.cmd\),closure\([\w.]*\)\)\)$",
         "_render_extra_section": r"is_some\(get_after(_long)?_help\(",
         "_render_authors_section": r"^is_some\(get_author\(",
     }
@@ -181,11 +184,9 @@ def run(ctx):
             gl = guard_strs(rd, c.bb)
             okg = any(g.startswith("T:") and re.search(grx, g[2:]) for g in gl) or only_if_any_true(rd, c.bb, grx)
             res.check(okg, "R19.2", "section-guard|" + fn_, c.where(), "%s only on %s" % (fn_, grx), "%s rendered without its has-content guard (guards: %s)" % (fn_, gl))
-    for fn_, need in (("app_has_version", [r"Command::get_version$", r"Command::get_long_version$"]), ("app_has_arguments", [r"Command::get_arguments$", r"Arg::is_hide_set$"]),
-                      ("app_has_subcommands", [r"Command::get_subcommands$", r"Command::is_hide_set$"])):
-        b = fx.body("clap_mangen::" + fn_)
-        missing = [n for n in need if not tree_calls(b, n)]
-        res.check(not missing, "R19.2", "predicate|" + fn_, b.where(), "%s reads %s" % (fn_, [n.rstrip("$") for n in need]), "%s no longer consults %s" % (fn_, missing))
+    vs = [c for c in rd.calls_to(r"Option(<[^>]*>)?::or_else$") if expr(rd, c.args[0]) == "get_version(self.cmd)"]
+    res.check(bool(vs) and all(any(cb.calls_to(r"Command::get_long_version$") for cb in closure_bodies(fx, c)[-1:]) for c in vs), "R19.2", "predicate|app_has_version", rd.where(),
+              "version section predicate = get_version().or_else(get_long_version).is_some()", "the version section predicate no longer consults get_long_version")
 
     # ---- R19.3 HIDE
     n = 0
@@ -223,14 +224,14 @@ def run(ctx):
 
 
     # ---- R19.2b the section predicates say exactly "there is a visible item" (a narrower test drops a section that has something to show)
-    for n_, src in (("app_has_arguments", "get_arguments(cmd)"), ("app_has_subcommands", "get_subcommands(cmd)")):
-        b_ = fx.body("clap_mangen::" + n_)
-        anyc = b_.calls_to(r"Iterator>?::any$")
-        okp = len(anyc) == 1 and expr(b_, anyc[0].args[0]) == src and expr(b_, {"cp": 0}) == "any(%s,closure())" % src
-        cbs = closure_bodies(fx, anyc[0]) if anyc else []
+    rd = fx.body("clap_mangen::Man::render")
+    for n_, src in (("app_has_arguments", "get_arguments(self.cmd)"), ("app_has_subcommands", "get_subcommands(self.cmd)")):
+        anyc = [c for c in rd.calls_to(r"Iterator>?::any$") if expr(rd, c.args[0]) == src]
+        okp = len(anyc) == 1
+        cbs = closure_bodies(fx, anyc[0])[-1:] if anyc else []
         okc = bool(cbs) and all(re.fullmatch(r"Not\(is_hide_set\(\w+\)\)", expr(cb, 0)) and len([x for x in cb.calls() if not sp_macro(x.sp)]) == 1 for cb in cbs)
-        res.check(okp and okc, "R19.2", "section-predicate|" + n_, b_.where(), "%s = any item is not hidden" % n_,
-                  "%s is no longer `any(!is_hide_set)` over %s (%s / %s): a section with visible items can be skipped, those items are then named nowhere on the page" % (n_, src, expr(b_, {"cp": 0})[:60], [expr(cb, 0)[:60] for cb in cbs]))
+        res.check(okp and okc, "R19.2", "section-predicate|" + n_, rd.where(), "%s = any item is not hidden" % n_,
+                  "the section predicate over %s is no longer `any(!is_hide_set)` (%s): a section with visible items can be skipped, those items are then named nowhere on the page" % (src, [expr(cb, 0)[:60] for cb in cbs]))
 
 
 def classify_mangen(fx, b, c):
